@@ -66,6 +66,9 @@ NFD_CAFE, NFC_CAFE = "cafe\u0301", "caf\u00e9"
 NFC_UBER, NFD_UBER = "\u00fcber", "u\u0308ber"
 NFD_RESUME, NFC_RESUME = "re\u0301sume\u0301", "r\u00e9sum\u00e9"
 HANGUL_JAMO, HANGUL_SYLLABLE = "\u1112\u1161\u11ab", "\ud55c"
+STRASSE_ROOT = "stra\u00dfe"                     # casefold() == "strasse" == "STRASSE".casefold()
+CASE_ROOTS = {"Project": ["project", "PROJECT"], STRASSE_ROOT: ["STRASSE", "strasse"], "root": ["Root", "ROOT"],
+              "croot": ["CRoot"]}
 FILE_PATTERN = re.compile(r"(?!~\$).*\.(csv|xlsx)$", re.IGNORECASE)   # make_loader default (compared via API runs)
 DECOYS = ["/etc/passwd", "/etc/hostname"]
 NONEX = ["nope", "ghost.csv", "zz"]
@@ -198,6 +201,11 @@ def build_tree():
     f("croot/sub/m.csv")
     f("root2/m.csv")
     f("outside/u.csv")
+    # case-variant siblings: next to each root a folder whose name differs from the root's only in letter case
+    # (for non-ASCII: only after case folding), holding files; roots whose own name has mixed case
+    f("Root/a.csv"); f("ROOT/a.csv"); f("CRoot/m.csv")
+    f("Project/p.csv"); f("Project/sub/q.csv"); f("project/p.csv"); f("PROJECT/p.csv"); f("PROJECT/sub/q.csv")
+    f(STRASSE_ROOT + "/p.csv"); f(STRASSE_ROOT + "/sub/q.csv"); f("STRASSE/p.csv"); f("strasse/p.csv")
     # non-ASCII names: the decomposed and the composed spelling of the same text are DIFFERENT directory entries on
     # Linux; one is a real folder / file inside the root, the other an outward symlink (both ways), also Hangul
     # conjoining jamo vs the precomposed syllable
@@ -232,6 +240,11 @@ def build_tree():
         ("outside/ln_back", "../root"),
         ("outside/ln_back_file.csv", "../root/a.csv"),
         ("rootlink", "root"),
+        ("root/ln_case", "../Root"), ("root/ln_case_file.csv", "../ROOT/a.csv"), ("Root/ln_back", "../root"),
+        ("Project/ln_sib", "../project"), ("Project/ln_sib_file.csv", "../PROJECT/p.csv"),
+        ("Project/ln_in", "sub"), ("project/ln_back", "../Project"), ("project/ln_back_file.csv", "../Project/p.csv"),
+        (STRASSE_ROOT + "/ln_sib", "../STRASSE"), (STRASSE_ROOT + "/ln_sib_file.csv", "../strasse/p.csv"),
+        ("STRASSE/ln_back", "../" + STRASSE_ROOT),
         ("root/" + NFC_CAFE, "../outside"),                   # composed twin of the real decomposed folder
         ("root/" + NFD_UBER, "../outside"),                   # decomposed twin of the real composed folder
         ("root/" + NFC_RESUME + ".csv", "../outside/secret.csv"),
@@ -359,9 +372,15 @@ def gen_spec(rng, T, src_folder):
                            "/" + NFD_RESUME + ".csv", "/" + NFC_RESUME + ".csv",
                            "/" + HANGUL_JAMO + "/u.csv", "/" + HANGUL_SYLLABLE + "/u.csv", "\\" + HANGUL_JAMO,
                            "/sub/" + NFC_CAFE + "/u.csv", "/sub/" + NFD_CAFE + "/u.csv",
-                           "/sub/../" + NFD_CAFE + "/../" + NFC_UBER + "/u.csv"])
+                           "/sub/../" + NFD_CAFE + "/../" + NFC_UBER + "/u.csv",
+                           "/../Root/a.csv", "/../ROOT", "/ln_case/a.csv", "/ln_case", "/ln_case_file.csv",
+                           "file:/../Root/a.csv", "\\../ROOT/a.csv", "/../project/p.csv", "/../PROJECT",
+                           "/../PROJECT/sub/q.csv", "/ln_sib/p.csv", "/ln_sib", "/ln_sib_file.csv", "/../STRASSE/p.csv",
+                           "/../strasse", "/../CRoot/m.csv", "/p.csv", "/sub/q.csv", "/ln_in/q.csv",
+                           "/../Project/p.csv", "/../" + STRASSE_ROOT + "/p.csv"])
     elif form in ("abs", "dslash_abs"):
-        base = rng.choice([root, root + "/sub", T + "/outside", T + "/root2", T, T + "/rootlink", "/"])
+        base = rng.choice([root, root + "/sub", T + "/outside", T + "/root2", T, T + "/rootlink", "/",
+                           T + "/Root", T + "/PROJECT", T + "/Project"])
         tail = walk_segments(rng, base if os.path.isdir(base) else None, max(1, n - 1))
         spec = (base.rstrip("/") + "/" + "/".join(tail))
         if form == "dslash_abs":
@@ -716,7 +735,10 @@ def _realpath_cases(rng, T, fs, n, ops, pend, out):
 
 
 ROOT_CFGS = ["canonical"] * 7 + ["none", "trailing", "dotted", "symlink_alias", "dotdot", "dslash", "relative",
-                                 "inner_link", "sub"]
+                                 "inner_link", "sub", "canon_project", "canon_project", "canon_strasse",
+                                 "case_alias"]
+CANON_ROOTS = {"canonical": "/root", "trailing": "/root", "dotted": "/root", "canon_project": "/Project",
+               "canon_strasse": "/" + STRASSE_ROOT}
 
 
 def make_root(kind, T):
@@ -724,6 +746,8 @@ def make_root(kind, T):
         "canonical": T + "/root", "none": None, "trailing": T + "/root/", "dotted": T + "/./root/.",
         "symlink_alias": T + "/rootlink", "dotdot": T + "/root/sub/..", "dslash": "/" + T + "/root",
         "relative": "root", "inner_link": T + "/root/ln_in_dir", "sub": T + "/root/sub",
+        "canon_project": T + "/Project", "canon_strasse": T + "/" + STRASSE_ROOT,
+        "case_alias": T + "/PROJECT/../Project",          # not canonical as written: refuses everything
     }[kind]
 
 
@@ -735,6 +759,9 @@ def _function_cases(rng, T, seed, fs, n, ops, pend, out, model_ok):
         rk = rng.choice(ROOT_CFGS)
         root = make_root(rk, T)
         src = rng.choice(srcs[:5]) if rng.random() < 0.85 else rng.choice(srcs)
+        if rk in ("canon_project", "canon_strasse", "case_alias"):
+            src = rng.choice([None, make_root(rk if rk != "case_alias" else "canon_project", T),
+                              make_root(rk if rk != "case_alias" else "canon_project", T) + "/sub"])
         spec, tags = gen_spec(rng, T, None if src is None else os.path.realpath(src))
         null_folder = src is None and rng.random() < 0.2
         case = {"level": "function", "seed": seed, "index": idx, "root_cfg": rk, "root": tok(root, T),
@@ -751,8 +778,8 @@ def _function_cases(rng, T, seed, fs, n, ops, pend, out, model_ok):
         # ---- oracle
         if events:
             out.fail("_resolve_load_item_path opened or listed something", case, events, [], key="fn:access")
-        if rk in ("canonical", "trailing", "dotted"):
-            canon_root = T + "/root"
+        if rk in CANON_ROOTS:
+            canon_root = T + CANON_ROOTS[rk]
             want = intended(canon_root, spec, src if src is None else os.path.abspath(src))
             if "ok" in impl:
                 rp = real_target(impl["ok"])
@@ -784,7 +811,7 @@ def _function_cases(rng, T, seed, fs, n, ops, pend, out, model_ok):
 
 PLACEMENTS = ["root_item", "root_item", "include_root", "include_root", "include_nested", "include_nested",
               "include_via_link", "default_roots", "folder_then_include", "folder_then_include", "folder_then_item",
-              "include_root_folder_then_hostile", "include_xlsx", "include_mem"]
+              "include_root_folder_then_hostile", "include_xlsx", "include_mem", "case_sibling", "case_sibling"]
 
 # specifications aimed at entries directly in the PARENT of the root folder (file and folder), and deeper ones;
 # `$T` is replaced by the scratch directory.  Relative forms are for a file at the top level of the root.
@@ -859,6 +886,9 @@ def _api_cases(rng, T, tables, seed, fs, n, ops, pend, out, model_ok):
         raising = rng.random() < 0.2
         root = T + ("/croot" if placement in ("folder_then_include", "folder_then_item",
                                               "include_root_folder_then_hostile") else "/root")
+        case_root = rng.choice(sorted(CASE_ROOTS))
+        if placement == "case_sibling":
+            root = T + "/" + case_root
         if placement in ("folder_then_include", "include_root_folder_then_hostile"):
             # these runs load some file twice (as listed child and as item): a raising tracker would stop at the
             # duplicate report before the planted specification is reached
@@ -888,6 +918,39 @@ def _api_cases(rng, T, tables, seed, fs, n, ops, pend, out, model_ok):
                 if spec not in include_lines(inc):
                     out.count("api:not-plantable")
                     planted_src = "unplantable"
+            elif placement == "case_sibling":
+                # a sibling of the root whose name differs only in letter case (or only before case folding) is
+                # OUTSIDE the root on a case-sensitive file system: aimed at from a root item, from an include in a
+                # top-level or nested file, directly or through an outward symlink; also the way back in
+                sib = rng.choice(CASE_ROOTS[case_root])
+                fname = {"root": "a.csv", "croot": "m.csv"}.get(case_root, "p.csv")
+                where = rng.choice(["root_item", "include_root", "include_nested"])
+                rooted = ["/../" + sib + "/" + fname, "/../" + sib, "file:/../" + sib + "/" + fname,
+                          "\\../" + sib + "/" + fname, "/" + T + "/" + sib + "/" + fname, "/../" + sib + "/../" + sib,
+                          "/../" + sib + "/../" + case_root + "/" + fname, "/" + fname, "/sub/../../" + sib]
+                if case_root in ("Project", STRASSE_ROOT):
+                    rooted += ["/ln_sib/p.csv", "/ln_sib", "/ln_sib_file.csv", "/ln_sib/ln_back/p.csv"]
+                if case_root == "root":
+                    rooted += ["/ln_case/a.csv", "/ln_case", "/ln_case_file.csv", "/ln_case/ln_back/a.csv"]
+                tags = ["case-sibling", "has:.."]
+                if where == "root_item":
+                    spec = rng.choice(rooted)
+                    roots, planted_src = [spec], None
+                else:
+                    folder = root if where == "include_root" else root + "/sub"
+                    up = "../" if where == "include_root" else "../../"
+                    spec = rng.choice(rooted + [up + sib + "/" + fname, up + sib, "file:" + up + sib + "/" + fname,
+                                                up + sib + "/../" + case_root + "/" + fname])
+                    inc = os.path.join(folder, f"inc{idx}.csv")
+                    with open(inc, "w", encoding="utf-8") as fh:
+                        fh.write(_table(f"t_inc{idx}") + "***include;\n" + spec + "\n\n")
+                    created.append(inc)
+                    roots = [f"/inc{idx}.csv" if where == "include_root" else f"/sub/inc{idx}.csv"]
+                    planted_src = folder
+                    if spec not in include_lines(inc):
+                        out.count("api:not-plantable")
+                        planted_src = "unplantable"
+                tags.append(where)
             elif placement == "include_xlsx":
                 # the including location is a sheet block of a workbook at the top level of the root
                 spec, tags = gen_spec(rng, T, root)
@@ -1102,9 +1165,10 @@ def _shared_loader_dict_cases(T, tables, seed, n, ops, pend, out, model_ok):
     """two or three load_files calls in one process that pass the SAME `additional_protocol_loaders` dict object
     (holding a harmless `mem` loader) but different root folders (B inside / beside A): every call is judged
     against ITS OWN root (audit oracle, refusal, loading) and compared with the model for that root"""
-    roots_pool = [T + "/croot", T + "/croot/sub", T + "/root2", T + "/root", T + "/root/sub"]
+    roots_pool = [T + "/croot", T + "/croot/sub", T + "/root2", T + "/root", T + "/root/sub", T + "/Project",
+                  T + "/project", T + "/PROJECT"]
     specs_pool = ["/m.csv", "/sub/n.csv", "/sub/m.csv", "/", "/sub", "/../m.csv", "/e.csv", "/a.csv", "/c.csv",
-                  "file:/m.csv", "\\m.csv", "/../croot/m.csv", "/../sub/m.csv"]
+                  "file:/m.csv", "\\m.csv", "/../croot/m.csv", "/../sub/m.csv", "/p.csv", "/../project/p.csv", "/../Project/p.csv"]
     fs = snapshot_fs(T, DECOYS)
     world = snapshot_world(T) if model_ok else None
     for h in range(n):
